@@ -1,5 +1,5 @@
 ID = 'C12'
-UNITS = {'lru': dict(wrap='wrap.cc', shim=True, new_block=256, cxxflags=['-DVERIF_UMAP_CAP=4', '-DVERIF_UMAP_POOL=2', '-I/tmp/agentF_shim'])}
+UNITS = {'lru': dict(wrap='wrap.cc', shim=True, new_block=64, cxxflags=['-DVERIF_UMAP_CAP=4', '-DVERIF_UMAP_NODES'])}
 BOUNDS = 'TODO'
 STUBS = []
 OUTSIDE = []
@@ -8,8 +8,7 @@ ASSUMPTIONS = []
 def queries(tier):
     qs = []
     for k in ([1, 2, 3] if tier == 'quick' else [1, 2, 3, 4]):
-        qs.append(dict(name='set_hist_k%d' % k, unit='lru', harness='h_set.c', defs={'K': k}, unwind=max(k, 8) + 2, timeout=1500, mem_gb=10,
-                       object_bits=12, desc='LRUSet history', bounds='k=%d' % k))
-        qs.append(dict(name='set_hist1_k%d' % k, unit='lru', harness='h_set.c', defs={'K': k, 'ONE_INSTANCE': 1}, unwind=max(k, 8) + 2, timeout=1500, mem_gb=10,
+        for w in range(1 << k):
+            qs.append(dict(name='set_hist_k%d_w%d' % (k, w), unit='lru', harness='h_set.c', defs={'K': k, 'WHICH': w}, unwind=10, timeout=1500, mem_gb=10,
                        object_bits=12, desc='LRUSet history', bounds='k=%d' % k))
     return qs
